@@ -1,5 +1,6 @@
 import TR.Lemmas.Bulkhead
 import TR.Lemmas.BulkheadMulti
+import TR.Lemmas.BulkheadLog
 /-!
 # C01 — the bulkhead never lets more than `max_concurrent_calls` into the inner service
 
@@ -89,5 +90,125 @@ example :
        (1, .arrive 3 ⟨5, .never⟩), (1, .poll 3), (0, .poll 2)]
     (ms.insts 0).running = [1] ∧ (ms.insts 0).queue = [2] ∧ (ms.insts 1).running = [3] ∧ (ms.insts 1).free = 0 ∧
     (ms.insts 2).free = 1 := by decide
+
+/-! ## the count is the in-flight SET: the log is a well-formed call/end trace (audit A, C01 gap G1)
+
+`trace_bound` bounds `calls − ended` in every prefix. The theorems below say that this difference IS the number of calls
+in flight, on the log alone: `inflight p` is the list of callers whose `inner_call` has no matching end in the prefix `p`
+(computed from the events only, `Lemmas/BulkheadLog`). -/
+
+/-- **Every event of every reachable log is sensible with respect to the events before it** (`EvOK`, spelled out in
+`call_is_new` and `end_follows_own_call`). `WF` is closed under prefixes (`WF.take`). -/
+theorem log_wellformed (cfg : Cfg) (ops : List Op) : WF (run cfg ops).log :=
+  (logInv_reachable cfg ops).wf
+
+/-- An `inner_call c k` is the first inner call of caller `c` and the first use of serial `k`. -/
+theorem call_is_new (cfg : Cfg) (ops : List Op) (p rest : List Ev) (c k : Nat)
+    (h : (run cfg ops).log = p ++ Ev.innerCall c k :: rest) :
+    (∀ k', Ev.innerCall c k' ∉ p) ∧ (∀ c', Ev.innerCall c' k ∉ p) := by
+  have := log_wellformed cfg ops; rw [h] at this; exact this.at
+
+/-- **Each `inner_done` / `inner_drop` of call `(c, k)` follows its own `inner_call c k`, while that call is still
+open** (so it occurs at most once: it closes the call, and `c` never gets a second one — `at_most_one_call_and_end`). -/
+theorem end_follows_own_call (cfg : Cfg) (ops : List Op) (p rest : List Ev) (e : Ev) (c k : Nat)
+    (he : e = Ev.innerDrop c k ∨ ∃ o, e = Ev.innerDone c k o) (h : (run cfg ops).log = p ++ e :: rest) :
+    Ev.innerCall c k ∈ p ∧ c ∈ inflight p := by
+  have := log_wellformed cfg ops; rw [h] at this
+  have hok := this.at
+  rcases he with he | ⟨o, he⟩ <;> (subst he; exact ⟨hok.2, hok.1⟩)
+
+/-- In every prefix of the log, per caller: at most one inner call, at most one end, an end only after the call;
+`calls − ends` of the caller is 1 exactly while it is in `inflight`. -/
+theorem at_most_one_call_and_end (cfg : Cfg) (ops : List Op) (n c : Nat) :
+    callsOf ((run cfg ops).log.take n) c ≤ 1 ∧
+    callsOf ((run cfg ops).log.take n) c
+      = endsOf ((run cfg ops).log.take n) c + (inflight ((run cfg ops).log.take n)).count c := by
+  have := ((log_wellformed cfg ops).take n).account c
+  exact ⟨this.2, this.1⟩
+
+/-- **The count is the set.** In every prefix `p` of every reachable log: (inner calls started) − (finished or
+dropped) = the number of open calls `inflight p`, nobody is in that list twice, and it has at most `max` members. -/
+theorem count_is_inflight_set (cfg : Cfg) (ops : List Op) (n : Nat) :
+    calls ((run cfg ops).log.take n) = ended ((run cfg ops).log.take n) + (inflight ((run cfg ops).log.take n)).length ∧
+    (inflight ((run cfg ops).log.take n)).Nodup ∧ (inflight ((run cfg ops).log.take n)).length ≤ cfg.max := by
+  have hwf := (log_wellformed cfg ops).take n
+  have ht := hwf.total
+  have hb := trace_bound cfg ops n
+  exact ⟨ht, hwf.nodup, by omega⟩
+
+/-- **The open calls of the log are exactly the model's `running`** (same callers, same order): every statement about
+`running` (`bound`, `permits_conserved`, C07's hypotheses) is a statement about the event log. -/
+theorem inflight_is_running (cfg : Cfg) (ops : List Op) : inflight (run cfg ops).log = (run cfg ops).running :=
+  (logInv_reachable cfg ops).fl
+
+/-- A caller is inside the inner service iff the log has its `inner_call` and no end for it. -/
+theorem running_iff_log (cfg : Cfg) (ops : List Op) (c : Nat) :
+    c ∈ (run cfg ops).running ↔ callsOf (run cfg ops).log c = 1 ∧ endsOf (run cfg ops).log c = 0 := by
+  have h := (log_wellformed cfg ops).account c
+  rw [inflight_is_running] at h
+  rw [← List.count_pos_iff]
+  constructor
+  · intro hc; omega
+  · intro ⟨h1, h2⟩; omega
+
+/-- nobody is inside twice -/
+theorem running_nodup (cfg : Cfg) (ops : List Op) : (run cfg ops).running.Nodup := by
+  rw [← inflight_is_running]; exact (log_wellformed cfg ops).nodup
+
+/-- Non-vacuity for `call_is_new` / `end_follows_own_call`: a log with a finished, a dropped and an open call. -/
+example :
+    (run { max := 2, maxWait := none }
+      [.arrive 1 ⟨0, .ok⟩, .arrive 2 ⟨5, .never⟩, .arrive 3 ⟨5, .ok⟩, .poll 1, .poll 2, .poll 3, .drop 2]).log
+    = [.innerCall 1 0, .innerDone 1 0 .ok, .result 1 (.ok 0)] ++ Ev.innerCall 2 1 :: [.innerCall 3 2] ++ Ev.innerDrop 2 1 :: [] ∧
+    inflight [Ev.innerCall 1 0, .innerDone 1 0 .ok, .result 1 (.ok 0), .innerCall 2 1, .innerCall 3 2] = [2, 3] := by
+  decide
+
+/-! ## an inner call is made only in the step that took a permit (audit A, C01 clause 8) -/
+
+/-- **`inner_needs_permit`.** If a step — ANY operation, from ANY state — appends `inner_call c k` to the log, then
+the operation is `poll c`, `k` is the current serial, and the step consists of: taking a permit for `c` (giving `s1`:
+either `c` is polled for the first time and a FREE permit leaves the pool, or `c` uses the permit a release handed
+it; free + handed-over drops by exactly one and `running`, the queue and the log are untouched), `startInner s1 c`
+(`c` enters `running`, `inner_call c k` is logged), and one poll of the new inner call. So no inner call exists
+without its caller holding a permit, from before the call starts. -/
+theorem inner_needs_permit (cfg : Cfg) (s : State) (op : Op) (c k : Nat)
+    (h : Ev.innerCall c k ∈ (stepS cfg s op).log.drop s.log.length) :
+    op = .poll c ∧ k = s.serial ∧
+    ∃ s1 : State, s1.running = s.running ∧ s1.queue = s.queue ∧ s1.log = s.log ∧ s1.serial = s.serial ∧
+      ((s.fresh.contains c = true ∧ s.free > 0 ∧ s1.free + 1 = s.free ∧ s1.assigned = s.assigned) ∨
+       (s.fresh.contains c = false ∧ s.assigned.contains c = true ∧ s1.free = s.free ∧
+          s1.assigned = s.assigned.erase c)) ∧
+      stepS cfg s op = pollRunning (startInner s1 c) c :=
+  inner_call_step cfg s op c k h
+
+/-- The same over whole histories, in the observables: every `inner_call c k` in a reachable log was appended by one
+particular `poll c` of the history, made in a state where `c` had never been polled and a permit was free, or where `c`
+had been handed a permit. -/
+theorem inner_call_origin (cfg : Cfg) (ops : List Op) (c k : Nat) (h : Ev.innerCall c k ∈ (run cfg ops).log) :
+    ∃ pre post, ops = pre ++ Op.poll c :: post ∧ k = (run cfg pre).serial ∧
+      (((run cfg pre).fresh.contains c = true ∧ (run cfg pre).free > 0) ∨
+       ((run cfg pre).fresh.contains c = false ∧ (run cfg pre).assigned.contains c = true)) := by
+  obtain ⟨pre, op, post, heq, hm⟩ := mem_log_origin cfg ops _ h
+  obtain ⟨hop, hk, s1, _, _, _, _, hcase, _⟩ := inner_call_step cfg (run cfg pre) op c k hm
+  subst hop
+  refine ⟨pre, post, heq, hk, ?_⟩
+  rcases hcase with ⟨a, b, _, _⟩ | ⟨a, b, _, _⟩
+  · exact Or.inl ⟨a, b⟩
+  · exact Or.inr ⟨a, b⟩
+
+/-- Non-vacuity for `inner_needs_permit`, both ways of taking a permit: caller 1 takes the free permit; caller 2
+queues, is handed the permit when 1 finishes, and starts its inner call at its next poll. -/
+example :
+    let cfg : Cfg := { max := 1, maxWait := none }
+    let s0 := run cfg [.arrive 1 ⟨5, .ok⟩, .arrive 2 ⟨0, .ok⟩]
+    let s1 := run cfg [.arrive 1 ⟨5, .ok⟩, .arrive 2 ⟨0, .ok⟩, .poll 1, .poll 2, .adv 5, .poll 1]
+    Ev.innerCall 1 0 ∈ (stepS cfg s0 (.poll 1)).log.drop s0.log.length ∧ s0.free = 1 ∧
+    s1.assigned = [2] ∧ s1.free = 0 ∧ Ev.innerCall 2 1 ∈ (stepS cfg s1 (.poll 2)).log.drop s1.log.length := by
+  decide
+
+/-- Every service built from one layer value has a well-formed log of its own whose open calls are its `running`. -/
+theorem services_log_wellformed (cfg : Cfg) (mops : List (Nat × Op)) (j : Nat) :
+    WF ((runM cfg mops).insts j).log ∧ inflight ((runM cfg mops).insts j).log = ((runM cfg mops).insts j).running := by
+  rw [runM_synced]; exact ⟨log_wellformed cfg _, inflight_is_running cfg _⟩
 
 end TR.Props.C01
